@@ -341,9 +341,88 @@ def correspondence(ctx):
     return c
 
 
+class World3:
+    """three squares in a row, two interfaces (added after seeded change C07-4: a form over several
+    interfaces at once kept the boundary pieces of the last interface only)"""
+
+    def __init__(self, tag):
+        m = _api()
+        self.m, self.dim = m, 2
+        sfx = tag + '3p'
+        P = [m['Square'](n + sfx, bounds1=(i, i + 1)) for i, n in enumerate('ABC')]
+        self.domain = m['Domain'].join(P, [((0, 0, 1), (1, 0, -1), 1), ((1, 0, 1), (2, 0, -1), 1)], 'ABC' + sfx)
+        self.I = self.domain.interfaces                       # the union of both
+        self.ifaces = list(self.I.args) if hasattr(self.I, 'args') and not hasattr(self.I, 'minus') else [self.I]
+        self.V = m['ScalarFunctionSpace']('V' + sfx, self.domain)
+        self.W = m['VectorFunctionSpace']('W' + sfx, self.domain)
+        e = m['element_of']
+        self.u, self.v, self.f = [e(self.V, name=n) for n in ('u', 'v', 'f')]
+        self.U, self.Vt = [e(self.W, name=n) for n in ('U', 'Vt')]
+        self.kappa = m['Constant']('kappa')
+        self.nn = m['NormalVector']('nn')
+        self.coords = list(self.domain.coordinates)
+
+
+def kernel_table(m, ks):
+    """{(kind, target, trial side, test side): expanded kernel}"""
+    import sympy
+    out = {}
+    for k in ks:
+        if isinstance(k, m['InterfaceExpression']):
+            key = ('I', str(k.target), type(k.trial).__name__, type(k.test).__name__)
+        elif isinstance(k, m['BoundaryExpression']):
+            key = ('B', str(k.target), '', '')
+        else:
+            key = ('D', str(k.target), '', '')
+        e = k.expr
+        e = sympy.Matrix(e) if hasattr(e, 'shape') else sympy.Matrix([[e]])
+        out[key] = (out[key] + e) if key in out else e
+    return {k: v.applyfunc(sympy.expand) for k, v in out.items()}
+
+
+def multi_interface_cases(ctx, o, n):
+    """lowering a form over all interfaces of a three-patch domain gives, interface by interface,
+    exactly the kernels of the same integrand integrated over that interface alone (each of which
+    is checked by the two-patch cases): nothing is lost, moved or duplicated"""
+    rng = ctx.rng
+    w = World3('c7')
+    m = w.m
+    for i in range(n):
+        g = gen_form(rng, w)
+        if g is None:
+            continue
+        kind, u, v, e, form = g
+        name = '%s form over both interfaces of A|B|C: %s' % (kind, e)
+        o.evaluations += 1
+        try:
+            with time_limit(90):
+                whole = kernel_table(m, m['TerminalExpr'](form, w.domain))
+                parts = {}
+                for I in w.ifaces:
+                    f1 = (m['BilinearForm']((u, v), m['integral'](I, e)) if kind == 'bilinear'
+                          else m['LinearForm'](v, m['integral'](I, e)))
+                    for k_, val in kernel_table(m, m['TerminalExpr'](f1, w.domain)).items():
+                        parts[k_] = (parts[k_] + val).applyfunc(__import__('sympy').expand) if k_ in parts else val
+        except Timeout:
+            o.count('timeout:multi')
+            continue
+        except Exception as ex:
+            o.fail('multi:raised:%s' % name[:200], 'lowering %s raised %s' % (name, type(ex).__name__))
+            continue
+        o.count('multi-interface:' + kind)
+        zero = lambda M_: all(x == 0 for x in M_)
+        keys = set(k_ for k_, v_ in whole.items() if not zero(v_)) | set(k_ for k_, v_ in parts.items() if not zero(v_))
+        bad = [k_ for k_ in keys if k_ not in whole or k_ not in parts or whole[k_] != parts[k_]]
+        if bad:
+            o.fail('multi:%s' % name[:220],
+                   '%s: the kernels on %s differ from those of the integrals over the single interfaces (lost, moved or duplicated pieces)'
+                   % (name, sorted(map(str, bad))[:4]))
+
+
 def oracle(ctx, factor, seeds):
     o = Oracle()
     run(ctx, (300 if ctx.thorough else 60) * factor, None, o)
+    multi_interface_cases(ctx, o, (40 if ctx.thorough else 8) * factor)
     return o
 
 
